@@ -409,7 +409,11 @@ class SqlImpl(TableImpl):
             # resolve potential column name collisions in the subquery (visible columns
             # come first so that they keep their name)
             visible = set(original_select)
-            for uid in sorted(needed_cols.keys(), key=lambda uid: uid not in visible):
+            # the pending grouping is carried through the subquery: its columns are needed by the outer query, too
+            needed = list(needed_cols.keys()) + [
+                col._uuid for col in query.partition_by if col._uuid not in needed_cols
+            ]
+            for uid in sorted(needed, key=lambda uid: uid not in visible):
                 if uid in sqa_expr:
                     name = sqa_expr[uid].name
                     if c := cnt.get(name):
@@ -424,7 +428,7 @@ class SqlImpl(TableImpl):
             table = cls.compile_query(table, query, sqa_expr).subquery()
             sqa_expr = {
                 uid: sqa.label(name_in_subquery[uid], table.columns.get(name_in_subquery[uid]))
-                for uid in needed_cols.keys()
+                for uid in needed
                 if uid in sqa_expr
             }
 
